@@ -12,6 +12,7 @@ pub use grin_wallet_impls as impls;
 pub use grin_wallet_libwallet as libwallet;
 
 pub mod common;
+pub mod dwallet;
 pub mod explore;
 pub mod inject;
 pub mod node;
